@@ -155,365 +155,7 @@ fn accept(text: &str, scratch: &Path) -> Result<Accepted, String> {
     Ok(Accepted { model, generated, warnings })
 }
 
-// ------------------------------------------------------------------------------------------
-// seeded random grammars from the typed model
-
-struct Gen<'r> {
-    rng: &'r mut Rng,
-    tokens: Vec<TokM>,
-    plain: Vec<usize>,
-    nrules: usize,
-    /// rules generated in "choice region" mode (no actions, no choices, only such callees): callable inside attempts
-    safe: Vec<bool>,
-    pratt: Vec<bool>,
-    names: Vec<String>,
-    starters: Vec<usize>,
-    choice_no: u8,
-    marker_no: usize,
-    node_names: usize,
-    swarm: Swarm,
-}
-#[derive(Clone, Copy)]
-struct Swarm {
-    preds: bool,
-    actions: bool,
-    asserts: bool,
-    choices: bool,
-    node_ops: bool,
-    returns: bool,
-    syms: bool,
-}
-
-#[derive(Clone, Copy)]
-struct Ctx {
-    rule: usize,
-    is_start: bool,
-    /// inside a non-last, uncommitted alternative of an ordered choice (or a rule callable from one)
-    region: bool,
-    depth: usize,
-}
-
-impl Gen<'_> {
-    fn starter(&mut self) -> usize {
-        if self.starters.is_empty() {
-            let mut p = self.plain.clone();
-            self.rng.shuffle(&mut p);
-            self.starters = p;
-        }
-        self.starters.pop().unwrap()
-    }
-    fn tok_rx(&mut self, t: usize) -> Rx {
-        if self.swarm.syms && self.tokens[t].symbol.is_some() && self.rng.chance(1, 2) {
-            Rx::Sym(t)
-        } else {
-            Rx::Tok(t)
-        }
-    }
-    fn callee(&mut self, cx: Ctx) -> Option<usize> {
-        // mostly later rules (acyclic); the start rule is never referenced
-        let mut cands: Vec<usize> = (cx.rule + 1..self.nrules).collect();
-        if cx.region {
-            cands.retain(|r| self.safe[*r]);
-        }
-        if cands.is_empty() {
-            return None;
-        }
-        Some(*self.rng.pick(&cands))
-    }
-    fn item(&mut self, cx: Ctx, first: bool) -> Vec<Rx> {
-        let roll = self.rng.below(100);
-        let deep = cx.depth >= 3;
-        match roll {
-            0..=34 => {
-                let t = if first { self.starter() } else { *self.rng.pick(&self.plain.clone()) };
-                vec![self.tok_rx(t)]
-            }
-            35..=54 => match self.callee(cx) {
-                Some(r) if !first => vec![Rx::Rule(r)],
-                _ => {
-                    let t = self.starter();
-                    vec![self.tok_rx(t)]
-                }
-            },
-            55..=62 if !deep => vec![Rx::Opt(Box::new(self.guarded_seq(cx)))],
-            63..=70 if !deep => {
-                let b = self.guarded_seq(cx);
-                vec![Rx::Star(Box::new(Rx::Paren(Box::new(b))))]
-            }
-            71..=74 if !deep => {
-                let b = self.guarded_seq(cx);
-                vec![Rx::Plus(Box::new(Rx::Paren(Box::new(b))))]
-            }
-            75..=76 if !deep && self.swarm.choices && !cx.region && self.choice_no < 9 => {
-                // a repetition whose body is an ordered choice
-                let c = self.choice(Ctx { depth: cx.depth + 1, ..cx });
-                let body = Rx::Paren(Box::new(Rx::Seq(c)));
-                vec![if self.rng.chance(1, 2) { Rx::Star(Box::new(body)) } else { Rx::Plus(Box::new(body)) }]
-            }
-            75..=82 if !deep => {
-                let n = self.rng.range(2, 3);
-                let alts: Vec<Rx> = (0..n).map(|_| self.guarded_seq(cx)).collect();
-                vec![Rx::Paren(Box::new(Rx::Alt(alts)))]
-            }
-            83..=90 if !deep && self.swarm.choices && !cx.region && self.choice_no < 9 => self.choice(cx),
-            91..=92 if self.swarm.actions && !cx.region => vec![Rx::Action(self.rng.range(1, 3).to_string())],
-            93..=94 if self.swarm.asserts => vec![Rx::Assert(self.rng.range(1, 3).to_string())],
-            95..=96 if self.swarm.node_ops && !cx.is_start && !self.pratt[cx.rule] => {
-                self.node_names += 1;
-                vec![Rx::Rename(format!("ren{}", self.node_names % 3))]
-            }
-            97 if self.swarm.node_ops && !cx.is_start && !self.pratt[cx.rule] => vec![Rx::Elide],
-            98..=99 if self.swarm.returns && !cx.is_start && !first => vec![Rx::Return],
-            _ => {
-                let t = if first { self.starter() } else { *self.rng.pick(&self.plain.clone()) };
-                vec![self.tok_rx(t)]
-            }
-        }
-    }
-    /// a sequence that starts with a fresh token (optionally behind a predicate): bodies of options,
-    /// repetitions and alternation branches
-    fn guarded_seq(&mut self, cx: Ctx) -> Rx {
-        let mut v = vec![];
-        if self.swarm.preds && self.rng.chance(1, 6) {
-            v.push(Rx::Pred(if self.rng.chance(1, 4) { "t".into() } else { self.rng.range(1, 3).to_string() }));
-        }
-        let t = self.starter();
-        v.push(self.tok_rx(t));
-        let cx2 = Ctx { depth: cx.depth + 1, ..cx };
-        for _ in 0..self.rng.below(3) {
-            v.extend(self.item(cx2, false));
-        }
-        self.add_markers(&mut v, cx);
-        if v.len() == 1 {
-            v.pop().unwrap()
-        } else {
-            Rx::Seq(v)
-        }
-    }
-    fn add_markers(&mut self, v: &mut Vec<Rx>, cx: Ctx) {
-        if self.swarm.node_ops && v.len() >= 2 && self.rng.chance(1, 6) && !cx.is_start {
-            let first_ok = if matches!(v[0], Rx::Pred(_)) { 1 } else { 0 };
-            let i = self.rng.range(first_ok, v.len() - 1);
-            let j = self.rng.range(i + 1, v.len());
-            self.marker_no += 1;
-            let num = self.marker_no.to_string();
-            self.node_names += 1;
-            let name = if self.rng.chance(3, 4) { Some(format!("mk{}", self.node_names % 3)) } else { None };
-            v.insert(j, Rx::Create { num: Some(num.clone()), name });
-            v.insert(i, Rx::Marker(num));
-        }
-    }
-    fn choice(&mut self, cx: Ctx) -> Vec<Rx> {
-        let c = self.choice_no;
-        self.choice_no += 1;
-        let nalts = self.rng.range(2, 3);
-        let region = Ctx { region: true, depth: cx.depth + 1, ..cx };
-        // a shared prefix makes the choice a real one (one token of lookahead cannot decide it)
-        let prefix: Vec<Rx> = {
-            let mut p = vec![];
-            let t = self.starter();
-            p.push(self.tok_rx(t));
-            if self.rng.chance(1, 2) {
-                if let Some(r) = self.callee(region) {
-                    p.push(Rx::Rule(r));
-                } else {
-                    let t = *self.rng.pick(&self.plain.clone());
-                    p.push(self.tok_rx(t));
-                }
-            }
-            p
-        };
-        let mut alts = vec![];
-        for k in 1..=nalts {
-            let last = k == nalts;
-            let mut v = vec![Rx::Assert(format!("9{c}{k}"))];
-            if last && self.rng.chance(1, 2) {
-                // the last alternative need not share the prefix
-                let t = self.starter();
-                v.push(self.tok_rx(t));
-            } else {
-                v.extend(prefix.iter().cloned());
-            }
-            let acx = if last { Ctx { depth: cx.depth + 1, ..cx } } else { region };
-            let mut committed = false;
-            for _ in 0..self.rng.range(1, 3) {
-                if !last && !committed && self.rng.chance(1, 5) {
-                    v.push(Rx::Commit);
-                    committed = true;
-                }
-                let icx = if committed { Ctx { depth: cx.depth + 1, ..cx } } else { acx };
-                v.extend(self.item(icx, false));
-            }
-            alts.push(Rx::Seq(v));
-        }
-        vec![Rx::Assert(format!("9{c}0")), Rx::Paren(Box::new(Rx::Choice(alts))), Rx::Assert(format!("9{c}9"))]
-    }
-    fn normal_rule(&mut self, r: usize, is_start: bool) -> RuleM {
-        let cx = Ctx { rule: r, is_start, region: self.safe[r], depth: 0 };
-        self.starters.clear();
-        self.choice_no = 0;
-        self.marker_no = 0;
-        let elided = !is_start && self.swarm.node_ops && self.rng.chance(1, 6);
-        let body = if !is_start && self.rng.chance(1, 30) {
-            None
-        } else if self.rng.chance(1, 4) {
-            let n = self.rng.range(2, 4);
-            Some(Rx::Alt((0..n).map(|_| self.guarded_seq(cx)).collect()))
-        } else {
-            let mut v = vec![];
-            let n = self.rng.range(1, 4);
-            for i in 0..n {
-                v.extend(self.item(cx, i == 0));
-            }
-            self.add_markers(&mut v, cx);
-            // (`>` in a rule that is not elided makes lelwel emit code that does not compile: avoided, see DESIGN §7)
-            if !is_start && elided && self.swarm.node_ops && self.rng.chance(1, 2) {
-                self.node_names += 1;
-                let name = if self.rng.chance(1, 2) { Some(format!("whole{}", self.node_names % 2)) } else { None };
-                v.push(Rx::Create { num: None, name });
-            }
-            Some(if v.len() == 1 { v.pop().unwrap() } else { Rx::Seq(v) })
-        };
-        RuleM { name: self.names[r].clone(), elided, body }
-    }
-    fn pratt_rule(&mut self, r: usize) -> RuleM {
-        // dedicated operator tokens keep the operators out of every other first/follow set
-        let mut op = |g: &mut Gen<'_>, right: bool| -> usize {
-            let i = g.tokens.len();
-            let name = format!("Op{}", i);
-            let symbol = if g.swarm.syms { Some(format!("o{i}")) } else { None };
-            g.tokens.push(TokM { name, symbol, skipped: false, right });
-            i
-        };
-        let me = Rx::Rule(r);
-        let mut branches = vec![];
-        let n_infix = self.rng.range(1, 3);
-        for _ in 0..n_infix {
-            let right = self.rng.chance(1, 4);
-            let ops: Vec<usize> = (0..self.rng.range(1, 2)).map(|_| op(self, right)).collect();
-            let oprx = if ops.len() == 1 { self.tok_rx(ops[0]) } else { Rx::Paren(Box::new(Rx::Alt(ops.iter().map(|o| Rx::Tok(*o)).collect()))) };
-            let mut v = vec![me.clone(), oprx, me.clone()];
-            if self.swarm.node_ops && self.rng.chance(1, 3) {
-                v.push(Rx::Rename("bin".into()));
-            }
-            branches.push(Rx::Seq(v));
-        }
-        if self.rng.chance(1, 2) {
-            let o = op(self, false);
-            let mut v = vec![self.tok_rx(o), me.clone()];
-            if self.swarm.node_ops && self.rng.chance(1, 3) {
-                v.push(Rx::Rename("pre".into()));
-            }
-            let at = self.rng.below(branches.len() + 1);
-            branches.insert(at, Rx::Seq(v));
-        }
-        if self.rng.chance(1, 3) {
-            let o = op(self, false);
-            let mut v = vec![me.clone(), self.tok_rx(o)];
-            if self.swarm.node_ops && self.rng.chance(1, 3) {
-                v.push(Rx::Rename("post".into()));
-            }
-            let at = self.rng.below(branches.len() + 1);
-            branches.insert(at, Rx::Seq(v));
-        }
-        // atoms
-        let a = op(self, false);
-        branches.push(self.tok_rx(a));
-        if self.rng.chance(1, 2) {
-            let (l, rr) = (op(self, false), op(self, false));
-            branches.push(Rx::Seq(vec![self.tok_rx(l), me.clone(), self.tok_rx(rr)]));
-        }
-        if self.rng.chance(1, 3) {
-            if let Some(c) = self.callee(Ctx { rule: r, is_start: false, region: self.safe[r], depth: 0 }) {
-                if !self.pratt[c] {
-                    let t = op(self, false);
-                    branches.push(Rx::Seq(vec![self.tok_rx(t), Rx::Rule(c)]));
-                }
-            }
-        }
-        RuleM { name: self.names[r].clone(), elided: false, body: Some(Rx::Alt(branches)) }
-    }
-}
-
-fn random_grammar(rng: &mut Rng) -> GModel {
-    let nplain = rng.range(3, 9);
-    let mut tokens = vec![];
-    let syms = rng.chance(1, 2);
-    for i in 0..nplain {
-        let name = format!("{}", (b'A' + i as u8) as char);
-        let symbol = if syms && rng.chance(2, 3) { Some(format!("{}", (b'a' + i as u8) as char)) } else { None };
-        tokens.push(TokM { name, symbol, skipped: false, right: false });
-    }
-    let plain: Vec<usize> = (0..nplain).collect();
-    if rng.chance(3, 4) {
-        tokens.push(TokM { name: "Ws".into(), symbol: None, skipped: true, right: false });
-        if rng.chance(1, 2) {
-            tokens.push(TokM { name: "Cm".into(), symbol: None, skipped: true, right: false });
-        }
-    }
-    let nrules = rng.range(1, 7);
-    let names: Vec<String> = (0..nrules).map(|i| if i == 0 { "s".to_string() } else { format!("r{i}") }).collect();
-    let swarm = Swarm {
-        preds: rng.chance(1, 2),
-        actions: rng.chance(1, 2),
-        asserts: rng.chance(1, 2),
-        choices: rng.chance(2, 3),
-        node_ops: rng.chance(2, 3),
-        returns: rng.chance(1, 3),
-        syms,
-    };
-    let safe: Vec<bool> = (0..nrules).map(|i| i > 0 && rng.chance(1, 2)).collect();
-    let pratt: Vec<bool> = (0..nrules).map(|i| i > 0 && rng.chance(1, 6)).collect();
-    let mut g = Gen { rng, tokens, plain, nrules, safe, pratt, names, starters: vec![], choice_no: 0, marker_no: 0, node_names: 0, swarm };
-    let mut rules: Vec<Option<RuleM>> = vec![None; nrules];
-    for r in (0..nrules).rev() {
-        rules[r] = Some(if g.pratt[r] { g.pratt_rule(r) } else { g.normal_rule(r, r == 0) });
-    }
-    let rules: Vec<RuleM> = rules.into_iter().map(|r| r.unwrap()).collect();
-    // parts: only rules reachable from the start rule and not used inside an ordered-choice attempt
-    // (lelwel accepts the other cases but emits code that does not compile: avoided, see DESIGN §7)
-    let mut reach = vec![false; nrules];
-    reach[0] = true;
-    fn refs(r: &Rx, out: &mut Vec<usize>) {
-        match r {
-            Rx::Rule(i) => out.push(*i),
-            Rx::Seq(v) | Rx::Alt(v) | Rx::Choice(v) => v.iter().for_each(|x| refs(x, out)),
-            Rx::Opt(x) | Rx::Star(x) | Rx::Plus(x) | Rx::Paren(x) => refs(x, out),
-            _ => {}
-        }
-    }
-    let mut changed = true;
-    let mut in_attempt = vec![false; nrules];
-    while changed {
-        changed = false;
-        for i in 0..nrules {
-            if !reach[i] {
-                continue;
-            }
-            let mut out = vec![];
-            if let Some(b) = &rules[i].body {
-                refs(b, &mut out);
-            }
-            for j in out {
-                if !reach[j] {
-                    reach[j] = true;
-                    changed = true;
-                }
-            }
-        }
-    }
-    // conservative: any rule generated in region mode may be called from an attempt
-    for i in 0..nrules {
-        in_attempt[i] = g.safe[i];
-    }
-    let mut parts = vec![];
-    for r in 1..nrules {
-        if reach[r] && !in_attempt[r] && g.rng.chance(1, 4) {
-            parts.push(r);
-        }
-    }
-    GModel { tokens: g.tokens, rules, start: 0, parts }
-}
+use parsim_rt::gen::random_grammar;
 
 // ------------------------------------------------------------------------------------------
 // glue emission
